@@ -247,6 +247,10 @@ type GunPlan struct {
 	FactoryDelayUs int `json:"factory_delay_us,omitempty"`
 	FactoryDelayAt int `json:"factory_delay_at,omitempty"`
 	WarmUpDelayUs  int `json:"warmup_delay_us,omitempty"`
+	// CloseDelayUs: how long Close of the gun bound to instance i takes, cyclic over the instance ids (empty or 0 =
+	// instant). A gun counts as closed (Closed, ClosedAt) only once its Close has returned; CloseEntered counts the
+	// calls at their entry.
+	CloseDelayUs []int `json:"close_delay_us,omitempty"`
 }
 
 // StepSpan is one plain delay a double spent inside a step that ignores contexts.
@@ -337,14 +341,39 @@ type Gun struct {
 	Closed    atomic.Int32
 	ClosedAt  atomic.Int64
 	IsWarmUp  bool
+	// CloseEntered counts Close calls at their entry (Closed counts them at their return).
+	CloseEntered atomic.Int32
 }
 
 type closerGun struct{ *Gun }
 
 func (g closerGun) Close() error {
+	g.Gun.CloseEntered.Add(1)
+	sleepUs(g.Gun.CloseDelay())
 	g.Gun.Closed.Add(1)
 	g.Gun.ClosedAt.Store(time.Now().UnixNano())
 	return nil
+}
+
+// CloseDelay is the planned duration (microseconds) of this gun's Close: GunPlan.CloseDelayUs by the id of the
+// instance the gun was bound to (0 for a gun that was never bound).
+func (g *Gun) CloseDelay() int {
+	n := len(g.w.Plan.CloseDelayUs)
+	if n == 0 || !g.Bound.Load() {
+		return 0
+	}
+	id := g.Deps.InstanceID
+	if id < 0 {
+		id = -id
+	}
+	return g.w.Plan.CloseDelayUs[id%n]
+}
+
+// GunsSnapshot returns the guns created so far (safe while factory calls may still be in progress).
+func (w *GunWorld) GunsSnapshot() []*Gun {
+	w.mu.Lock()
+	defer w.mu.Unlock()
+	return append([]*Gun(nil), w.Guns...)
 }
 
 type warmGun struct{ *Gun }
